@@ -10,6 +10,12 @@ open Httpcache
 def canonResp (r : Resp) : Resp := { r with header := Header.canon r.header }
 def canonEntry (e : Entry) : Entry := { e with resp := canonResp e.resp }
 
+/-- a stored value as the harness decodes it (http.ReadResponse): the serialisation
+    (httputil.DumpResponse) writes its own `Connection: close` for close-delimited responses —
+    a codec artefact, not part of the entry (ParseResponse strips hop-by-hop fields) -/
+def canonStored (e : Entry) : Entry :=
+  canonEntry { e with resp := { e.resp with header := Header.del e.resp.header sConnection } }
+
 def showRef (r : Ref) : String :=
   s!"\{id={shw r.id} vary={shw r.vary} resolved={String.intercalate "," (r.resolved.map fun p => shw p.1 ++ "=" ++ shw p.2)} at={r.receivedAt}}"
 
@@ -78,7 +84,7 @@ def replay (h : Hist) (n : Nat) : Nat → Prog → List Ev → Outcome → Outco
         | .setEntry id en k, .store e =>
           match e.val with
           | .ent en' _ =>
-            if e.op == "set" && e.key = id && canonEntry en = canonEntry en' then replay h n fuel (k (e.result == "ok")) rest o
+            if e.op == "set" && e.key = id && canonEntry en = canonStored en' then replay h n fuel (k (e.result == "ok")) rest o
             else mism
           | _ => mism
         | .setRefs key refs k, .store e =>
